@@ -3,6 +3,7 @@ package main
 import (
 	"fmt"
 	"math/rand"
+	"strings"
 )
 
 // ---------------------------------------------------------------------------
@@ -983,4 +984,18 @@ func manyInterfaces(r *rand.Rand) Scenario {
 		s.Convs = []FuncSpec{posFn([]int{3}, []int{1})}
 	}
 	return s
+}
+
+// caseSubs upper-cases the subtype of every SUPPLIED value and leaves the
+// subtypes that functions declare as they are: subtypes are compared as
+// written (only names are case-insensitive), so a value supplied under "X"
+// is not a value of subtype "x".
+func caseSubs(s Scenario) Scenario {
+	t := s
+	t.Inputs = make([]Label, len(s.Inputs))
+	for i, l := range s.Inputs {
+		l.Sub = strings.ToUpper(l.Sub)
+		t.Inputs[i] = l
+	}
+	return t
 }
